@@ -22,6 +22,7 @@ import SA.Proofs.QueueWrap
 import SA.Proofs.DnsWrites
 import SA.Proofs.DnsPoll
 import SA.Model.DnsExchange
+import SA.Gen.PkgVars
 namespace SA.Queue
 
 /-- the source facts the proofs rely on (all regenerated: SA.Gen.c07*) -/
@@ -527,3 +528,16 @@ end SA.DnsWrites
 #print axioms SA.DnsWrites.C07_eventual_delivery_by_poll
 #print axioms SA.DnsWrites.C07_witness_bare_poll
 #print axioms SA.DnsWrites.C07_poll_period_bounded
+
+namespace SA.PkgState
+/-- **no_hidden_process_state**: the models of this property are functions of their arguments and of the objects they are
+    handed; the packages they model keep no package-level variables besides these (regenerated inventory: error
+    sentinels, tables, compiled patterns, the two session time-outs).  A new package-level variable — a counter, a cache, a
+    scratch buffer, a shared map, a registry — would make later calls depend on earlier ones, or concurrent calls on each
+    other, outside anything a per-call comparison of model and code can see. -/
+theorem C07_no_hidden_process_state :
+    Gen.pkgVarNames_dnsutil = ["DotRegex", "DownloadCodecCheck", "ErrCaseSwap", "ErrDeadlineExceeded", "ErrInvalidSequenceNumber", "ErrStreamBroken", "ErrTooLong", "QueryTypeA", "QueryTypeAAAA", "QueryTypeCname", "QueryTypeMx", "QueryTypeNull", "QueryTypePrivate", "QueryTypeSrv", "QueryTypeTxt", "QueryTypesByPriority"] ∧
+    Gen.pkgVarNames_dns = ["ConnectionTimeout", "ErrConnectionFailed", "ErrHandshakeNotCompleted", "OldConnectionTimeout"] := by decide
+end SA.PkgState
+
+#print axioms SA.PkgState.C07_no_hidden_process_state
